@@ -545,6 +545,8 @@ func newExec(t *testing.T) func([]string) string {
 var theT *testing.T
 
 func gen(r *hlib.Rand, n int, tier, profile string, emit func(string, ...any)) {
+	// hlib.NewRand(seed) places consecutive seeds one step apart on the same splitmix64 walk; jump away
+	r = hlib.NewRand(r.U64())
 	synctest.Test(theT, func(t *testing.T) {
 		e := &exec{t: t}
 		do := func(format string, a ...any) string {
